@@ -58,7 +58,9 @@ def ast_to_string(value: datetime.datetime | str | None) -> str:
         return value
     if value is None:
         return ''
-    return to_iso_datetime(value)
+    # the result is placed in URLs without further escaping, and an unescaped
+    # '+' of a UTC offset would be decoded as a space
+    return to_iso_datetime(value).replace('+', '%2B')
 
 
 AvailabilityStartTime = DashOption(
